@@ -16,6 +16,7 @@ Lemma server_handle_packet s b clock p de1 de3 :
   (forall s0, sv_de (fst (h_message s0 p clock)) = sv_de s0) ->
   exists s0 pre, same_core s s0 /\ sv_de s0 = sv_de s /\ ser_ok (sv_ser s0) /\ events pre = [] /\
     (snd (ack_step (sv_ack s) (lenN b)) = None -> pre = [] /\ sv_ser s0 = sv_ser s) /\
+    sv_ack s0 = fst (ack_step (sv_ack s) (lenN b)) /\
     server_handle_input s b clock =
       (let '(s1, r) := h_message (upd_de s0 de1) p clock in
        match r with ROk rs => (upd_de s1 de3, ROk (pre ++ rs)) | _ => (s1, r) end).
@@ -31,9 +32,9 @@ Proof.
   destruct (ack_step (sv_ack s) (lenN b)) as [a [n|]] eqn:Ea.
   - destruct (ack_send_ok (sv_ser s) n clock Hser) as [bk [ser2 [Ek Hser2]]]. rewrite Ek.
     exists (upd_ack (upd_ser s ser2) a), [SPacket bk false]. split; [repeat split|]. split; [reflexivity|]. split; [exact Hser2|]. split; [reflexivity|].
-    split; [intros Hw; cbn [snd] in Hw; discriminate Hw|]. apply Hloop. reflexivity.
+    split; [intros Hw; cbn [snd] in Hw; discriminate Hw|]. split; [reflexivity|]. apply Hloop. reflexivity.
   - exists (upd_ack s a), []. split; [repeat split|]. split; [reflexivity|]. split; [exact Hser|]. split; [reflexivity|].
-    split; [intros _; split; reflexivity|]. apply Hloop. reflexivity.
+    split; [intros _; split; reflexivity|]. split; [reflexivity|]. apply Hloop. reflexivity.
 Qed.
 
 (* a command message a session sends is decoded by the peer as that command *)
@@ -122,7 +123,7 @@ Proof.
     rewrite Hs.
     assert (Hframe : forall s0, sv_de (fst (h_message s0 m sclock)) = sv_de s0).
     { intros s0. unfold h_message. cbn [m m_tid m_data]. rewrite Hof. apply h_command_de. }
-    destruct (server_handle_packet s b sclock m de1 de3 Hser G1 G2 Hframe) as [s0 [pre [Hc0 [Hd0 [Hs0 [Hpre [Hnoack Hin]]]]]]].
+    destruct (server_handle_packet s b sclock m de1 de3 Hser G1 G2 Hframe) as [s0 [pre [Hc0 [Hd0 [Hs0 [Hpre [Hnoack [_ Hin]]]]]]]].
     assert (Hm : h_message (upd_de s0 de1) m sclock =
                  (upd_reqs (upd_objenc (upd_de s0 de1) 0) (insert (sv_next_req s0) (RConnection (strip_slash app) (u32_to_f64 (cl_next_tr c))) (sv_reqs s0)) (sv_next_req s0 + 1),
                   ROk [SEvent (EvConnectionRequested (sv_next_req s0) (strip_slash app))])).
@@ -144,6 +145,7 @@ Lemma client_handle_packet c b clock p de1 de3 :
   exists c0 pre, cl_cfg c0 = cl_cfg c /\ cl_next_tr c0 = cl_next_tr c /\ cl_trs c0 = cl_trs c /\ cl_state c0 = cl_state c /\
     cl_app c0 = cl_app c /\ cl_stream c0 = cl_stream c /\ cl_de c0 = cl_de c /\ ser_ok (cl_ser c0) /\ cevents pre = [] /\
     (snd (ack_step (cl_ack c) (lenN b)) = None -> pre = [] /\ cl_ser c0 = cl_ser c) /\
+    cl_ack c0 = fst (ack_step (cl_ack c) (lenN b)) /\
     client_handle_input c b clock =
       (let '(c1, r) := ch_message (cupd_de c0 de1) p clock in
        match r with COk rs => (cupd_de c1 de3, COk (pre ++ rs)) | _ => (c1, r) end).
@@ -159,9 +161,9 @@ Proof.
   destruct (ack_step (cl_ack c) (lenN b)) as [a [n|]] eqn:Ea.
   - destruct (ack_send_ok (cl_ser c) n clock Hser) as [bk [ser2 [Ek Hser2]]]. rewrite Ek.
     exists (cupd_ack (cupd_ser c ser2) a), [CPacket bk false]. repeat (split; [reflexivity|]). split; [exact Hser2|]. split; [reflexivity|].
-    split; [intros Hw; cbn [snd] in Hw; discriminate Hw|]. apply Hloop. reflexivity.
+    split; [intros Hw; cbn [snd] in Hw; discriminate Hw|]. split; [reflexivity|]. apply Hloop. reflexivity.
   - exists (cupd_ack c a), []. repeat (split; [reflexivity|]). split; [exact Hser|]. split; [reflexivity|].
-    split; [intros _; split; reflexivity|]. apply Hloop. reflexivity.
+    split; [intros _; split; reflexivity|]. split; [reflexivity|]. apply Hloop. reflexivity.
 Qed.
 
 Definition accept_info (s : server) (app : bytes) : value :=
@@ -233,7 +235,7 @@ Proof.
     rewrite Hs.
     assert (Hframe : forall c0, cl_de (fst (ch_message c0 m cclock)) = cl_de c0).
     { intros c0. unfold ch_message. cbn [m m_tid m_data]. rewrite Hof. apply ch_command_de. }
-    destruct (client_handle_packet c b cclock m de1 de3 Hcser G1 G2 Hframe) as [c0 [pre [E1 [E2 [E3 [E4 [E5 [E6 [E7 [Hs0 [Hpre [Hqc Hin]]]]]]]]]]]].
+    destruct (client_handle_packet c b cclock m de1 de3 Hcser G1 G2 Hframe) as [c0 [pre [E1 [E2 [E3 [E4 [E5 [E6 [E7 [Hs0 [Hpre [Hqc [_ Hin]]]]]]]]]]]]].
     (* the client's handler *)
     assert (Hm : exists b1 b2 ser2 ser1,
                ch_message (cupd_de c0 de1) m cclock =
